@@ -157,6 +157,45 @@ def h_hrefs(hsegs: List[int], prefix_kind: int) -> bool:
     return run(body_hrefs, hsegs, prefix_kind)
 
 
+def body_kernel(path_info):
+    """The path -> file-system mapping kernel alone (get_resource, then create_collection as MKCOL does) on a
+    minimal world: cheap enough to be exhausted for every string inside the bound."""
+    import xandikos.web as Wb
+    w = Wm.reset()
+    Wb.open_store_from_path.cache_clear()
+    for d in ("/srv", "/srv/other", ROOT, ROOT + "/a"):
+        w.dirs.add(d)
+    backend = Wb.XandikosBackend(ROOT)
+    p = path_info if path_info.startswith("/") else "/" + path_info
+    cls = "found"
+    try:
+        r = backend.get_resource(p)
+        if r is None:
+            cls = "created"
+            try:
+                backend.create_collection(p)
+            except (FileNotFoundError, FileExistsError, NotADirectoryError):
+                cls = "refused"
+    except Exception:
+        cls = "error"
+    for (kind, raw, norm) in w.log:
+        if not isinstance(raw, str) or not raw.startswith("/"):
+            continue
+        q = norm if norm is not None else _lexical(raw)
+        if not _inside(q):
+            return (False, "escape")
+    ok = all(_inside(d) or d in ("/", "/srv", "/srv/other") for d in w.dirs) and all(_inside(r) for r in w.repos)
+    return (ok, cls)
+
+
+def h_kernel(path_info: str) -> bool:
+    """
+    pre: len(path_info) <= ctx.b.klen and all(c in '/.a' for c in path_info)
+    post: _
+    """
+    return run(body_kernel, path_info)
+
+
 def _real(method, path_info, hrefs=None):
     import json
     import os
@@ -179,7 +218,7 @@ def real_raw(args, part):
     return _real(METHODS[part], args[0])
 
 
-_B = {"quick": {"nseg": 4, "rlen": 5}, "thorough": {"nseg": 6, "rlen": 7}}
+_B = {"quick": {"nseg": 4, "rlen": 5, "klen": 5}, "thorough": {"nseg": 6, "rlen": 7, "klen": 7}}
 _ENC = ["xandikos.web.XandikosBackend.get_resource", "xandikos.web.XandikosBackend._map_to_file_path",
         "xandikos.web.XandikosBackend.create_collection", "xandikos.webdav.WebDAVApp._get_resource_from_environ",
         "xandikos.webdav.MkcolMethod.handle", "xandikos.caldav.MkcalendarMethod.handle",
@@ -203,6 +242,13 @@ HARNESSES = [
             real_replay=real_raw,
             describe="path_info = any string over {'/', '.', 'a', 'b'} up to rlen characters; part = method",
             encodes=_ENC),
+    Harness("mkcol_kernel", h_kernel, body_kernel, classes=["found", "created", "refused"], bounds=_B,
+            budget={"quick": 120, "thorough": 900},
+            real_replay=lambda args, part: _real("MKCOL", args[0] if args[0].startswith("/") else "/" + args[0]),
+            describe="XandikosBackend.get_resource + create_collection (the MKCOL mapping kernel) for EVERY path "
+                     "string over {'/', '.', 'a'} up to klen characters",
+            encodes=["xandikos.web.XandikosBackend.get_resource", "xandikos.web.XandikosBackend.create_collection",
+                     "xandikos.web.XandikosBackend._map_to_file_path", "xandikos.store.git.TreeGitStore.create"]),
     Harness("hrefs", h_hrefs, body_hrefs, classes=["href:normal:2xx"], bounds=_B, budget={"quick": 90, "thorough": 600},
             describe="calendar-multiget whose body carries a symbolic href (plain, prefixed, absolute URL)",
             encodes=_ENC),
